@@ -467,6 +467,10 @@ type e2Profile struct {
 	// delay, and containers mostly fail, so that several indexes are in back-off at
 	// the same time with different due times (C08 backoff sub-check).
 	retryHeavy bool
+	// forceHeavy: a short force-delete timeout is always configured, a third of the
+	// JobConfigs forbid force deletion, and the clock moves in steps around the
+	// timeout while Pods linger in termination (C12 force sub-check).
+	forceHeavy bool
 }
 
 func genE2Setup(t *rapid.T, p e2Profile) *E2Trace {
@@ -477,6 +481,13 @@ func genE2Setup(t *rapid.T, p e2Profile) *E2Trace {
 		ForceDelete:    optInt64(t, "cfgForce", 0, 20, 900),
 		TTLDefault:     optInt64(t, "cfgTTL", 0, 60, 3600),
 		MaxEnqueued:    optInt64(t, "cfgMaxEnq", 2, 20),
+	}
+	if p.forceHeavy {
+		tr.Cfg.ForceDelete = optInt64(t, "fhForce", 10, 20)
+		if tr.Cfg.ForceDelete == nil {
+			v := int64(20)
+			tr.Cfg.ForceDelete = &v
+		}
 	}
 	if rapid.Bool().Draw(t, "permuteLists") {
 		tr.ListSalt = rapid.Uint64Range(1, 1<<40).Draw(t, "listSalt")
@@ -519,6 +530,10 @@ func genE2Setup(t *rapid.T, p e2Profile) *E2Trace {
 				d := int64(60)
 				j.RetryDelay = &d
 			}
+			j.PendingTimeout = nil
+		}
+		if p.forceHeavy {
+			j.ForbidForce = rapid.IntRange(0, 2).Draw(t, "fhForbid") == 0
 			j.PendingTimeout = nil
 		}
 		j.TTL = optInt64(t, "ttl", 0, 30, 3600)
@@ -672,6 +687,9 @@ func genOpsOn(t *rapid.T, r *e2run, tr *E2Trace, p e2Profile, _ int) {
 			add("deletePod", 1, func() E2Op { return E2Op{K: "deletePod", A: keyOf(rapid.SampledFrom(alivePods).Draw(t, "delpod"))} })
 		}
 		add("advance", 6, func() E2Op {
+			if p.forceHeavy { // steps around deletion grace period (30 s) + force-delete timeout (10-20 s)
+				return E2Op{K: "advance", D: int64(rapid.SampledFrom([]int{1000, 5000, 20000, 30000, 31000, 39000, 40000, 41000, 49000, 50000, 51000, 60000, 120000}).Draw(t, "adv"))}
+			}
 			if p.retryHeavy { // steps around the retry delays, so that one index is due and another not yet
 				return E2Op{K: "advance", D: int64(rapid.SampledFrom([]int{1000, 2000, 3000, 5000, 20000, 30000, 31000, 59000, 60000, 61000, 90000, 120000}).Draw(t, "adv"))}
 			}
